@@ -78,7 +78,17 @@ _unraisable_installed = False
 def install_static_stubs():
     global _unraisable_installed
     if hasattr(helpers, '_check_system_overload_if_needed'):
-        helpers._check_system_overload_if_needed = _noop
+        import inspect
+        if inspect.iscoroutinefunction(helpers._check_system_overload_if_needed) and not getattr(helpers._check_system_overload_if_needed, '_vfw_stub', False):
+            async def _anoop(*a, **k):
+                return None
+            _anoop._vfw_stub = True
+            helpers._check_system_overload_if_needed = _anoop
+        elif not getattr(helpers._check_system_overload_if_needed, '_vfw_stub', False):
+            def _snoop(*a, **k):
+                return None
+            _snoop._vfw_stub = True
+            helpers._check_system_overload_if_needed = _snoop
         if 'helpers._check_system_overload_if_needed -> no-op (psutil sampling blocks 0.1 s of real time)' not in STUBS_ACTIVE:
             STUBS_ACTIVE.append('helpers._check_system_overload_if_needed -> no-op (psutil sampling blocks 0.1 s of real time)')
     if not _unraisable_installed:
